@@ -18,7 +18,7 @@ MIN_FRACTIONS = {"nontrivial": 0.6, "colour-options": 0.2, "colour:list": 0.05, 
 
 
 def budget(tier):
-    return dict(examples=300, shards=4) if tier == "quick" else dict(examples=3000, shards=16)
+    return dict(examples=300, shards=4) if tier == "quick" else dict(examples=1500, shards=16)
 
 
 def strategy(tier):
